@@ -196,6 +196,31 @@ def prelude():
         pass
 
 
+class SolveTimeout(BaseException):
+    pass
+
+
+def _with_budget(fn, budgets=(20, 120)):
+    """Run fn() under a wall-clock watchdog; a run over the first budget is repeated once under the second."""
+    import signal, threading
+    if threading.current_thread() is not threading.main_thread():
+        return fn()
+
+    def onalarm(signum, frame):
+        raise SolveTimeout()
+    for i, b in enumerate(budgets):
+        old = signal.signal(signal.SIGALRM, onalarm)
+        signal.setitimer(signal.ITIMER_REAL, b)
+        try:
+            return fn()
+        except SolveTimeout:
+            if i == len(budgets) - 1:
+                raise
+        finally:
+            signal.setitimer(signal.ITIMER_REAL, 0)
+            signal.signal(signal.SIGALRM, old)
+
+
 def solve_real(text, solver=None):
     """Run the real solver on a fresh instance (or the given one). -> (kind, payload)"""
     from scinumtools.solver import ExpressionSolver, AtomBase
@@ -203,7 +228,11 @@ def solve_real(text, solver=None):
     prelude()
     es = solver or ExpressionSolver(AtomBase)
     try:
-        r = es.solve(text)
+        r = _with_budget(lambda: es.solve(text))
+    except SolveTimeout:
+        # "returns the value": an evaluation that takes > 20 s and, repeated, > 120 s of wall time for a few dozen tokens (the unchanged
+        # library needs well under a millisecond) does not return one
+        return ("timeout", None)
     except (Exception, HarnessInterrupt) as e:        # every exception escaping the public call counts as "rejected"
         return ("err", type(e).__name__)
     if r is None:
